@@ -57,7 +57,8 @@ LeavesOf(fam) ==
                            \* containers with several entries below the root, next to a sibling
                            Obj(<<Prop("m", MapT(TString, TNumber), FALSE), Prop("z", TNumber, FALSE)>>, <<>>),
                            Obj(<<Prop("s", SetT(TNumber), FALSE), Prop("z", TNumber, FALSE)>>, <<>>)}
-    [] fam = "format" -> {SFmt(<<"f1">>), SFmt(<<"f1", "f2">>), NFmt(<<"n1">>), NFmt(<<"n1", "n2">>), TString}
+    \* (the name "f1" is registered both as a string format and as a number format)
+    [] fam = "format" -> {SFmt(<<"f1">>), SFmt(<<"f1", "f2">>), NFmt(<<"n1">>), NFmt(<<"n1", "n2">>), NFmt(<<"f1">>), TString}
     \* discriminated unions whose variants are named, are intersections of named types that both declare the tag, or carry
     \* an index signature (declarations: PresetEnv)
     [] fam = "disc"   -> {Uni(<<Inter(<<Ref("Base"), Ref("Cp")>>), Obj(<<Prop("kind", LS("sq"), FALSE), Prop("s", TNumber, FALSE)>>, <<>>)>>),
@@ -67,12 +68,19 @@ LeavesOf(fam) ==
                           Uni(<<Ref("Cp"), Ref("Sq")>>),
                           Uni(<<Obj(<<Prop("kind", LS("a-b"), FALSE), Prop("x", TNumber, FALSE)>>, <<>>),
                                 Obj(<<Prop("kind", LS("a_b"), FALSE), Prop("y", TString, FALSE)>>, <<>>)>>),
+                          \* two levels of tags: several variants share a value of the first discriminator
+                          Uni(<<Obj(<<Prop("kind", LS("text"), FALSE), Prop("format", LS("plain"), FALSE), Prop("a", TString, FALSE)>>, <<>>),
+                                Obj(<<Prop("kind", LS("text"), FALSE), Prop("format", LS("html"), FALSE), Prop("b", TNumber, FALSE)>>, <<>>),
+                                Obj(<<Prop("kind", LS("img"), FALSE), Prop("c", TString, FALSE)>>, <<>>)>>),
                           \* named intersection members that declare the same property with types differing only in depth
                           Inter(<<Ref("Ma"), Ref("Mb")>>), Inter(<<Ref("Mb"), Ref("Ma")>>)}
     [] fam = "describe" -> {Obj(<<Prop("my-key", TString, FALSE), Prop("b", TNumber, TRUE)>>, <<>>),
                             Obj(<<Prop("a b", TString, TRUE)>>, <<>>),
                             Obj(<<Prop("0", TString, FALSE), Prop("$x", TNumber, FALSE)>>, <<>>),
                             Obj(<<Prop("a", TString, FALSE)>>, <<Ix(TString, Uni(<<TString, TNumber>>))>>),
+                            \* a template-literal index key next to a named member; keys that need escaping when quoted
+                            Obj(<<Prop("unit", TString, FALSE)>>, <<Ix(Tpl(<<TpLit("--"), TpStr>>), TNumber)>>),
+                            Obj(<<Prop("C:\\temp", TString, FALSE), Prop("say \"hi\"", TNumber, TRUE)>>, <<>>),
                             Tup(<<TString>>, <<TNumber>>), Prim("bigint"), Prim("Date"), MapT(TString, TNumber), SetT(TString),
                             Uni(<<LS("a"), LS("b")>>), Prim("void"), TUndef, Prim("object"), TNever}
     [] OTHER -> {TString}
